@@ -597,8 +597,19 @@ func (s *c38Sim) ctrlChannels(pred func(k string, c channeltypes.Channel) bool) 
 			out = append(out, k)
 		}
 	}
-	sort.Strings(out)
+	sortChanKeys(out)
 	return out
+}
+
+func sortChanKeys(ks []string) {
+	sort.Slice(ks, func(i, j int) bool {
+		pi, ii := split(ks[i])
+		pj, ij := split(ks[j])
+		if pi != pj {
+			return pi < pj
+		}
+		return chanNum(ii) < chanNum(ij)
+	})
 }
 
 // mine: the channel belongs to an owner of this case.
@@ -738,15 +749,15 @@ func (s *c38Sim) opHandshake() {
 		if len(hs) == 0 || s.r.Chance(1, 8) {
 			// answer with a host end that belongs to another channel
 			var any []string
-			for k := range s.mir[1].chans {
-				if strings.HasPrefix(k, icatypes.HostPortID+"/") {
+			for k, c := range s.mir[1].chans {
+				if strings.HasPrefix(k, icatypes.HostPortID+"/") && s.mine(c.Counterparty.PortId+"/x") {
 					any = append(any, k)
 				}
 			}
 			if len(any) == 0 {
 				return
 			}
-			sort.Strings(any)
+			sortChanKeys(any)
 			s.doAck(key, kit.Pick(s.r, any))
 			return
 		}
@@ -783,6 +794,10 @@ func (s *c38Sim) opSendTx() {
 	if short {
 		rel = uint64(time.Duration(10+s.r.Intn(40)) * time.Second)
 	}
+	if s.r.Chance(1, 8) {
+		// an account that owns no interchain account names itself as owner (and signs)
+		o = s.intruder
+	}
 	msg := controllertypes.NewMsgSendTx(o.Addr.String(), cc, rel, s.packetData(o, k))
 	signer := o
 	var out *kit.Outcome
@@ -802,7 +817,7 @@ func (s *c38Sim) opSendTx() {
 	if out == nil {
 		out = s.deliver(0, signer.Acc, msg)
 	}
-	s.note(fmt.Sprintf("%s[%s,%s,by=%s,short=%v]", kind, o.Name, cc, signer.Name, short), out, signer != o)
+	s.note(fmt.Sprintf("%s[%s,%s,by=%s,short=%v]", kind, o.Name, cc, signer.Name, short), out, signer != o || o == s.intruder)
 	if out.OK() {
 		if pk, err := ibctesting.ParseV1PacketFromEvents(out.Res.Events); err == nil {
 			s.pending = append(s.pending, &pendingPkt{Pk: pk, Timeout: time.Unix(0, int64(pk.TimeoutTimestamp))})
@@ -875,7 +890,10 @@ func (s *c38Sim) opTimeout() {
 	if len(shorts) == 0 {
 		return
 	}
-	p := s.oldestOn(kit.Pick(s.r, shorts))
+	s.timeoutPkt(s.oldestOn(kit.Pick(s.r, shorts)))
+}
+
+func (s *c38Sim) timeoutPkt(p *pendingPkt) {
 	if d := p.Timeout.Sub(s.e.W.Coord.CurrentTime); d > 0 {
 		if d > time.Hour {
 			return
@@ -915,6 +933,90 @@ func (s *c38Sim) opAdvance() {
 	s.ch[s.r.Intn(2)].Commit()
 }
 
+// sendTxAs sends the owner's own MsgSendTx (short timeout on demand) and records the packet.
+func (s *c38Sim) sendTxAs(o *actor, k int, short bool) {
+	cc, _ := s.connOf(k)
+	rel := uint64(24 * time.Hour)
+	if short {
+		rel = uint64(time.Duration(10+s.r.Intn(40)) * time.Second)
+	}
+	out := s.deliver(0, o.Acc, controllertypes.NewMsgSendTx(o.Addr.String(), cc, rel, s.packetData(o, k)))
+	s.note(fmt.Sprintf("sendtx[%s,%s,by=%s,short=%v]", o.Name, cc, o.Name, short), out, false)
+	if out.OK() {
+		if pk, err := ibctesting.ParseV1PacketFromEvents(out.Res.Events); err == nil {
+			s.pending = append(s.pending, &pendingPkt{Pk: pk, Timeout: time.Unix(0, int64(pk.TimeoutTimestamp))})
+			s.c.Inc("sendtx_accepted")
+		}
+	}
+}
+
+// opLifecycle does the most useful honest next thing for one (owner, connection): register, finish the handshake,
+// send with a short timeout, let it time out, confirm the closure on the host, reopen (mostly with the old
+// parameters, sometimes with other ones).
+func (s *c38Sim) opLifecycle() {
+	o := kit.Pick(s.r, s.owners)
+	k := s.pickConn()
+	cc, hc := s.connOf(k)
+	port := portOf(o.Addr)
+	act, has := s.mir[0].active[port+"/"+cc]
+	if !has {
+		mine := s.ctrlChannels(func(key string, c channeltypes.Channel) bool {
+			return strings.HasPrefix(key, port+"/") && hop0(c) == cc && c.State == channeltypes.INIT
+		})
+		if len(mine) == 0 {
+			s.opRegister(o, k, s.order(), metaVersion(cc, hc, kit.Pick(s.r, []string{icatypes.EncodingProtobuf, icatypes.EncodingProtobuf, icatypes.EncodingProto3JSON})))
+			return
+		}
+		s.progress(kit.Pick(s.r, mine))
+		return
+	}
+	key := port + "/" + act
+	ac := s.mir[0].chans[key]
+	switch ac.State {
+	case channeltypes.OPEN:
+		if s.progress(key) { // pending confirm on the host
+			return
+		}
+		for _, p := range s.pending {
+			if p.Pk.SourcePort == port && p.Pk.SourceChannel == act && p.Timeout.Sub(s.e.W.Coord.CurrentTime) < time.Hour {
+				s.timeoutPkt(s.oldestOn(p))
+				return
+			}
+		}
+		s.sendTxAs(o, k, true)
+	case channeltypes.CLOSED:
+		if s.progress(key) { // close confirmation on the host
+			return
+		}
+		// a replacement already under way?
+		repl := s.ctrlChannels(func(k2 string, c channeltypes.Channel) bool {
+			return strings.HasPrefix(k2, port+"/") && hop0(c) == cc && c.State == channeltypes.INIT
+		})
+		if len(repl) > 0 && s.r.Chance(3, 4) {
+			s.progress(kit.Pick(s.r, repl))
+			return
+		}
+		ord, ver := ac.Ordering, ""
+		if md, err := icatypes.MetadataFromVersion(ac.Version); err == nil {
+			ver = metaVersion(md.ControllerConnectionId, md.HostConnectionId, md.Encoding)
+			if s.r.Chance(1, 6) {
+				ver = ac.Version // including the account address
+			}
+		}
+		switch s.r.Intn(8) {
+		case 0:
+			if ord == channeltypes.ORDERED {
+				ord = channeltypes.UNORDERED
+			} else {
+				ord = channeltypes.ORDERED
+			}
+		case 1:
+			ver = s.version(k)
+		}
+		s.opRegister(o, k, ord, ver)
+	}
+}
+
 // Step performs one PRNG-chosen operation.
 func (s *c38Sim) Step() {
 	type wop struct {
@@ -922,16 +1024,17 @@ func (s *c38Sim) Step() {
 		f func()
 	}
 	ops := []wop{
-		{12, func() { s.opRegister(kit.Pick(s.r, s.owners), s.pickConn(), s.order(), s.version(0)) }},
+		{8, func() { k := s.pickConn(); s.opRegister(kit.Pick(s.r, s.owners), k, s.order(), s.version(k)) }},
 		{7, s.opDirectInit},
-		{30, s.opHandshake},
-		{14, s.opSendTx},
-		{9, s.opRelayPacket},
-		{10, s.opTimeout},
-		{5, s.opCloseConfirm},
+		{20, s.opHandshake},
+		{10, s.opSendTx},
+		{6, s.opRelayPacket},
+		{6, s.opTimeout},
+		{3, s.opCloseConfirm},
 		{4, s.opHostInit},
 		{4, s.opCtrlTry},
 		{2, s.opAdvance},
+		{30, s.opLifecycle},
 	}
 	tot := 0
 	for _, o := range ops {
